@@ -44,10 +44,31 @@ FIXED = [
     ("C13", "ebb7022", "second SchedulingSolver / second initialize() on a multi-objective problem raised ValueError (EquivalentIndicator registered twice)"),
     ("C14", "ebb7022", "equivalent weighted objective/indicator were registered in whatever problem was active, not in the solved one"),
     ("C16", "bee8218", "Excel task view: unscheduled task at -1 blanked its own name cell, at -2 and below silently dropped"),
+    ("C10", "472b534", "Or over an operand made of several assertions (TasksContiguous, ScheduleNTasksInTimeIntervals, WorkLoad, groups) was satisfied by any single one of them (assertion lists flattened into one disjunction)"),
+    ("C08", "73d9578", "utilisation -15% / reduced cost: unscheduled optional task with delay_in had an inverted (negative length) busy interval"),
+    ("C06", "73d9578", "unscheduled optional task with a delayed assignment contributed a negative busy time to utilisation, cost and workload"),
     ("C18", "939afbe", "ResourceNonDelay / TasksContiguous / IndicatorResourceIdle over a single task raised 'assertion And already added'"),
 ]
 
 OPEN = [
+    {"property": "C10", "key": "negated-operand-with-auxiliary-unknowns",
+     "where": "processscheduler/first_order_logic.py Not / Xor over util.sort_no_duplicates, TaskGroup, ScheduleNTasksInTimeIntervals, WorkLoad encodings",
+     "match": {"clause": "C10.*", "direction": "admitted-invalid", "features": {"aux_under_negation": True}},
+     "minimal_input": "tasks t0 (fixed 1), t1 (variable 1..2), horizon 4; Not(constraint=TasksContiguous([t0, t1])); pin t0=[0,1], t1=[1,2]: "
+                      "the contiguous placement is admitted",
+     "description": "Not/Xor over an operand whose encoding introduces auxiliary unknowns is satisfiable by falsifying the "
+                    "auxiliary definitions (sorted copies, group bounds, in-interval booleans), so the negation admits "
+                    "placements on which the operand holds; repairing it needs an encoding of those constraints without "
+                    "existential auxiliaries (not a small change)"},
+    {"property": "C18", "key": "distance-nondelay-on-cumulative-worker-rejected",
+     "where": "processscheduler/resource_constraint.py ResourceTasksDistance / ResourceNonDelay read resource._busy_intervals of the CumulativeWorker object (always empty)",
+     "match": {"clause": "C18.rejected_well_formed", "direction": "rejected", "features": {"rule": "cumulative_sorted_busy_table"}},
+     "minimal_input": "CumulativeWorker(size=2) required by two tasks; ResourceNonDelay(resource=cumulative) raises AssertionError "
+                      "('not assigned to any task'), ResourceTasksDistance raises 'has to be assigned to at least 2 tasks'",
+     "description": "ResourceTasksDistance and ResourceNonDelay accept a CumulativeWorker by type but look at the busy table of the "
+                    "cumulative object itself instead of its elementary workers, so an assigned cumulative worker is rejected as "
+                    "unassigned; what 'consecutive tasks' means on a resource that runs tasks in parallel is not documented, so no "
+                    "repair is attempted"},
 ]
 
 
